@@ -183,7 +183,7 @@ theorem arrive_forwarded {env : Env} {s : State} {r : Request} {f : Forwarded} (
     ∃ up x n g recv ctx,
       Model.Identity.parse r.lines ≠ none ∧ Model.Forward.forwardRequest r.toForward = some up ∧
       dispatch env s r = .done x ∧ Model.Forward.serve (scenario env s r) = .forward ∧ x.pop.1 = .picked n g ∧
-      Model.Identity.serve x.b.cl.cfg.token r.lines (some x.b.requestor) (env.authz (some x.b.p) x.b.requestor) false = .forwarded recv ctx ∧
+      Model.Identity.serveWith x.b.cl.cfg.token r.lines (some x.b.requestor) (env.authz (some x.b.p) x.b.requestor) false = .forwarded recv ctx ∧
       f = { cluster := x.b.p, policy := x.pk.policy, schema := schemaNameOf x.b.cl x.pk, endpoint := (n, g),
             handle := x.acq.handle, ctxUser := x.b.ctxUser, up := endToEnd up, identity := identityEntries recv,
             closeWhenIdle := x.b.cl.cfg.closeWhenIdle } ∧
@@ -485,7 +485,7 @@ theorem values_endToEnd (u : Model.Forward.UpReq) (k : Str) (hk : Model.Identity
 /-- the context user of C02's whole-path model is the one the impersonation filter computed -/
 theorem identity_ctx {env : Env} {p : Option Nat} {r : Request} {u : Model.Identity.Identity} {token : Str}
     {recv h1 : Model.Identity.Headers} {ctx ctx' : Model.Identity.Identity}
-    (hid : Model.Identity.serve token r.lines (some u) (env.authz p u) false = .forwarded recv ctx)
+    (hid : Model.Identity.serveWith token r.lines (some u) (env.authz p u) false = .forwarded recv ctx)
     (himp : impersonation env p r u = .pass h1 ctx') : ctx = ctx' := by
   obtain ⟨u', hh1, hv, hu, hex, _⟩ := KG.Lemmas.Identity.serve_forwarded _ _ _ _ _ _ _ hid
   cases hu
